@@ -767,7 +767,7 @@ func init() {
 // ---------------------------------------------------------------------------------------------------------------
 func rulePositionalSlicesIndexedByTheirOwnLoop(c *core.Ctx) {
 	const rule = "IX2"
-	c.Rule(rule, "pkg/dsl: a store `X[k] = v` into a slice X made with make([]T, len(S)) that stands inside `for i := range S` has k == i (or a local defined as i)", 4)
+	c.Rule(rule, "pkg/dsl: a store `X[k] = v` into a slice X made with make([]T, len(S)) that stands inside `for i := range S` has k == i (or a local defined as i)", 2)
 	n := 0
 	for _, d := range c.AllDecls() {
 		p := c.DeclPkg(d)
@@ -1439,4 +1439,84 @@ func comparisonText(c *core.Ctx, pkg *types.Package, info *types.Info, e ast.Exp
 		}
 	}
 	return false
+}
+
+func init() {
+	reg("C09", ruleSentinelResultsNotComparedWithEachOther)
+	reg("C19", ruleSentinelResultsNotComparedWithEachOther)
+}
+
+// ---------------------------------------------------------------------------------------------------------------
+// OK1: a value obtained from a (T, bool) function of the module with the bool discarded (`k, _ := f(x)`) may be the
+// function's "nothing" value. Comparing it with a named constant is fine; comparing two such values with each other
+// is not: two non-primitives both yield PrimitiveKindNotPrimitive and compare equal ("same kind: the cast is the
+// identity"), so a cast between two different records is accepted.
+// ---------------------------------------------------------------------------------------------------------------
+func ruleSentinelResultsNotComparedWithEachOther(c *core.Ctx) {
+	const rule = "OK1"
+	c.Rule(rule, "pkg/dsl: two locals that each hold the first result of a (T, bool) function of the module whose bool was discarded are never compared with each other (`==`, `!=`)", 3)
+	n := 0
+	for _, d := range c.AllDecls() {
+		p := c.DeclPkg(d)
+		if p == nil || d.Body == nil || c.IsTestFile(d.Pos()) || !strings.HasSuffix(p.PkgPath, "/pkg/dsl") {
+			continue
+		}
+		info := p.TypesInfo
+		sentinel := map[types.Object]string{}
+		ast.Inspect(d.Body, func(m ast.Node) bool {
+			as, ok := m.(*ast.AssignStmt)
+			if !ok || len(as.Lhs) != 2 || len(as.Rhs) != 1 {
+				return true
+			}
+			ce, ok := as.Rhs[0].(*ast.CallExpr)
+			if !ok {
+				return true
+			}
+			fn, _ := typeutil.Callee(info, ce).(*types.Func)
+			if fn == nil || fn.Pkg() == nil || !strings.Contains(fn.Pkg().Path(), "/yardl/tooling/") {
+				return true
+			}
+			sig, _ := fn.Type().(*types.Signature)
+			if sig == nil || sig.Results().Len() != 2 {
+				return true
+			}
+			if b, ok := sig.Results().At(1).Type().Underlying().(*types.Basic); !ok || b.Kind() != types.Bool {
+				return true
+			}
+			if id, ok := as.Lhs[1].(*ast.Ident); !ok || id.Name != "_" {
+				return true
+			}
+			if id, ok := as.Lhs[0].(*ast.Ident); ok && id.Name != "_" {
+				if o := info.ObjectOf(id); o != nil {
+					sentinel[o] = fn.Name()
+					n++
+					c.OK(rule, fmt.Sprintf("%s/%s := %s(…)", c.FuncName(d), id.Name, fn.Name()), as.Pos(), "a result whose verdict was discarded; compared with constants only")
+				}
+			}
+			return true
+		})
+		if len(sentinel) < 2 {
+			continue
+		}
+		ast.Inspect(d.Body, func(m ast.Node) bool {
+			be, ok := m.(*ast.BinaryExpr)
+			if !ok || (be.Op != token.EQL && be.Op != token.NEQ) {
+				return true
+			}
+			l, r := identObj(info, ast.Unparen(be.X)), identObj(info, ast.Unparen(be.Y))
+			if l == nil || r == nil || l == r {
+				return true
+			}
+			if fl, ok := sentinel[l]; ok {
+				if _, ok := sentinel[r]; ok {
+					c.Bad(rule, fmt.Sprintf("%s/%s %s %s", c.FuncName(d), l.Name(), be.Op, r.Name()), be.Pos(),
+						"`"+types.ExprString(be)+"` compares two results of "+fl+" whose `ok` was discarded: when neither argument qualifies both hold the function's \"nothing\" value and compare equal — a cast between two different non-primitive types is then treated as a cast between equal kinds and accepted")
+				}
+			}
+			return true
+		})
+	}
+	if n == 0 {
+		c.Undecided(rule, "anchor/discarded verdicts", 0, "no `v, _ := f(x)` with a (T, bool) function of the module found in pkg/dsl")
+	}
 }
